@@ -646,3 +646,48 @@ def spec_features(schema, spec):
     walk(spec['b'], schema.traits(spec['type']), 0)
     walk(spec['t'], schema.trailer, 0)
     return f
+
+
+# ------------------------------------------------------------------------------------------------
+def default_value(ft, n=0):
+    k = kind_of(ft)
+    if k == 'i': return ('i', 1 + n)
+    if k == 'b': return ('b', 1)
+    if k == 'c': return ('c', 0x31 + n % 9)
+    if k == 'f': return ('f', 12345 + n)
+    if k == 't': return ('t', 1362365174000 + n)
+    if k == 'o': return ('o', 3723004)
+    if k == 'd': return ('d', 15768)
+    if k == 'm': return ('m', [2013, 3, 0])
+    return ('s', 'V%d' % n)
+
+
+def minimal_items(traits, depth=0, full=False):
+    """deterministic: every mandatory field (all fields when full), one element per generated group"""
+    items = []
+    pairs = dict(traits.pairs())
+    data_of = {b: a for a, b in pairs.items()}
+    first = traits.first()
+    for n, tr in enumerate(traits.list):
+        if tr.automatic or tr.ft in EXCLUDED_FT or tr.tag in data_of:
+            continue
+        must = tr.man or (depth > 0 and first is not None and tr.tag == first.tag) or (tr.tag in pairs and traits[pairs[tr.tag]].man)
+        if not must and not full:
+            continue
+        if tr.grp:
+            els = [minimal_items(tr.sub, depth + 1, full and depth < 1)] if tr.sub and tr.sub.list else []
+            items.append({'t': tr.tag, 'k': 'i' if is_int(tr.ft) else 's', 'v': len(els) if is_int(tr.ft) else str(len(els)), 'g': els})
+        elif tr.tag in pairs:
+            items.append({'t': tr.tag, 'k': 'i', 'v': 4})
+            items.append({'t': pairs[tr.tag], 'k': 's', 'v': 'da=a'})
+        elif tr.ft == FT_data or (tr.ft == FT_Length and not tr.man):
+            continue
+        else:
+            k, v = default_value(tr.ft, n)
+            items.append({'t': tr.tag, 'k': k, 'v': v})
+    return items
+
+
+def minimal_spec(schema, mtype, full=False):
+    return {'type': mtype, 'h': minimal_items(schema.header, 0, full), 'b': minimal_items(schema.traits(mtype), 0, full),
+            't': minimal_items(schema.trailer, 0, full)}
